@@ -283,43 +283,19 @@ Proof.
   left. intros m Hm. apply Hno. eapply visible_sub; eauto.
 Qed.
 
-(* ---- package layout: every view is a sub-table of the whole API ---- *)
-Lemma view_sub view ms m : In m (view_table view ms) -> In m (full_table ms).
-Proof.
-  unfold view_table, full_table. intros H. apply in_map_iff in H. destruct H as (x & <- & Hx).
-  apply filter_In in Hx. apply in_map. tauto.
-Qed.
-
-Lemma view_wf view ms : methods_wf (full_table ms) -> methods_wf (view_table view ms).
-Proof.
-  intros (Hnd & Hfu). split.
-  - unfold view_table, full_table in *. rewrite map_map in *. now apply NoDup_map_filter.
-  - intros m fs Hin Hfs. apply (Hfu m fs); [|exact Hfs]. eapply view_sub; eauto.
-Qed.
-
-(* a violation judged against the whole API is a violation in every view (a method outside the view is "not found") *)
-Lemma violates_in_view view ms s :
-  methods_wf (full_table ms) -> violates (full_table ms) s -> violates (view_table view ms) s.
-Proof.
-  intros (Hnd & _) [Hmiss|(m & Hin & Hsel & Hne & Hv)].
-  - left. intros m Hm. apply Hmiss. eapply view_sub; eauto.
-  - destruct (mem_str (m_selector m) (map m_selector (view_table view ms))) eqn:E.
-    + apply mem_str_iff in E. apply in_map_iff in E. destruct E as (m' & Hsel' & Hm').
-      assert (m' = m) by (apply (uniq_by_name m_selector (full_table ms)); auto; eapply view_sub; eauto). subst m'.
-      right. exists m. auto.
-    + left. intros m' Hm' Hsel'.
-      assert (mem_str (m_selector m) (map m_selector (view_table view ms)) = true); [|congruence].
-      apply mem_str_iff. rewrite Hsel, <- Hsel'. now apply in_map.
-Qed.
-
+(* ---- package layout: every view validates against the whole API ---- *)
 (* whatever the package layout, an entry with a violation makes EVERY view fail: generation cannot succeed *)
 Lemma violation_rejected_in_every_layout view ms settings s :
   methods_wf (full_table ms) -> In s settings -> violates (full_table ms) s ->
   enforce (view_table view ms) settings = Crashed \/
   exists errs e, enforce (view_table view ms) settings = Rejected errs /\ assoc (s_selector s) errs = Some e.
-Proof.
-  intros Hwf Hin Hv. apply each_single_violation_rejected; [now apply view_wf|exact Hin|now apply violates_in_view].
-Qed.
+Proof. intros Hwf Hin Hv. unfold view_table. now apply each_single_violation_rejected. Qed.
+
+(* ... and settings that are valid for the API are accepted by every view, wherever its services live *)
+Lemma valid_accepted_in_every_layout view ms settings :
+  methods_wf (full_table ms) -> spec_valid (full_table ms) settings ->
+  enforce (view_table view ms) settings = Accepted.
+Proof. intros Hwf Hv. unfold view_table. now apply validation_iff_spec. Qed.
 
 Lemma generation_accepts_iff ms settings :
   generation_accepts ms settings = true <->
@@ -341,6 +317,15 @@ Proof.
   intros Hwf Hm0 Hin Hv. destruct (generation_accepts ms settings) eqn:E; [|reflexivity].
   rewrite generation_accepts_iff in E. specialize (E (lm_sub m0) (in_map lm_sub ms m0 Hm0)).
   destruct (violation_rejected_in_every_layout (lm_sub m0) ms settings s Hwf Hin Hv) as [H|(errs & e & H & _)]; congruence.
+Qed.
+
+Lemma generation_accepts_iff_spec ms settings m0 :
+  methods_wf (full_table ms) -> In m0 ms ->
+  (generation_accepts ms settings = true <-> spec_valid (full_table ms) settings).
+Proof.
+  intros Hwf Hm0. rewrite generation_accepts_iff. split.
+  - intros H. apply (validation_iff_spec (full_table ms) settings Hwf). exact (H (lm_sub m0) (in_map lm_sub ms m0 Hm0)).
+  - intros H v _. now apply valid_accepted_in_every_layout.
 Qed.
 
 Lemma dup_persist methods sel : forall settings seen errs r,
@@ -656,35 +641,33 @@ Example pruned_method_not_found :
     = Rejected [("pkg.Lib.CreateBooks", SMethodNotFound)].
 Proof. repeat split. Qed.
 
-(* ---- package layout: the converse fails — valid settings are rejected as soon as some service lives in a
-   sub-package that does not hold the named method (its view reports "Method was not found.") ---- *)
+(* ---- package layout: the former gap (a sub-package view rejected valid settings naming a method outside its own
+   sub-package with "Method was not found."), closed by /repo commit efe4cb8 ---- *)
 Definition layout_mixed : list lmethod :=
   [mkLMethod [] (mkMethod "pkg.Lib.CreateBook" false false (Some [f_name; f_req_id]));
    mkLMethod ["admin"] (mkMethod "pkg.admin.Admin.CreateThing" false false (Some [f_name; f_opt_id]))].
-Lemma layout_valid_settings_rejected_refuted :
-  exists ms settings,
-    methods_wf (full_table ms) /\ spec_valid (full_table ms) settings /\ generation_accepts ms settings = false /\
-    In (Rejected [("pkg.Lib.CreateBook", SMethodNotFound)]) (view_outcomes ms settings).
+
+Lemma layout_mixed_wf : methods_wf (full_table layout_mixed).
 Proof.
-  exists layout_mixed, [mkSetting "pkg.Lib.CreateBook" ["request_id"]]. split; [|split; [|split]].
-  - split.
-    + cbn. repeat constructor; cbn; intuition discriminate.
-    + intros m fs Hin Hfs. cbn in Hin. destruct Hin as [<-|[<-|[]]]; cbn in Hfs; inversion Hfs; subst;
-        unfold fields_uniq; cbn; repeat constructor; cbn; intuition discriminate.
-  - apply validation_iff_spec; [|reflexivity]. split.
-    + cbn. repeat constructor; cbn; intuition discriminate.
-    + intros m fs Hin Hfs. cbn in Hin. destruct Hin as [<-|[<-|[]]]; cbn in Hfs; inversion Hfs; subst;
-        unfold fields_uniq; cbn; repeat constructor; cbn; intuition discriminate.
-  - reflexivity.
-  - cbn. right. left. reflexivity.
+  split.
+  - cbn. repeat constructor; cbn; intuition discriminate.
+  - intros m fs Hin Hfs. cbn in Hin. destruct Hin as [<-|[<-|[]]]; cbn in Hfs; inversion Hfs; subst;
+      unfold fields_uniq; cbn; repeat constructor; cbn; intuition discriminate.
 Qed.
 
-(* non-vacuity of the layout lemmas: in the same layout a misspelt selector and a REQUIRED field are rejected by every view,
-   and settings naming only the sub-packaged method's own view... are still rejected by no view that holds it *)
+(* non-vacuity of the layout lemmas, and the former witness: settings naming the top-level method are accepted by the
+   admin view too; a misspelt selector and a REQUIRED field are rejected by every view *)
 Example layout_example :
+  methods_wf (full_table layout_mixed) /\
+  spec_valid (full_table layout_mixed) [mkSetting "pkg.Lib.CreateBook" ["request_id"]] /\
+  view_outcomes layout_mixed [mkSetting "pkg.Lib.CreateBook" ["request_id"]] = [Accepted; Accepted] /\
+  own_methods ["admin"] layout_mixed = [mkMethod "pkg.admin.Admin.CreateThing" false false (Some [f_name; f_opt_id])] /\
   view_outcomes layout_mixed [mkSetting "pkg.Lib.CreateBooks" ["request_id"]]
     = [Rejected [("pkg.Lib.CreateBooks", SMethodNotFound)]; Rejected [("pkg.Lib.CreateBooks", SMethodNotFound)]] /\
   view_outcomes layout_mixed [mkSetting "pkg.Lib.CreateBook" ["name"]]
-    = [Rejected [("pkg.Lib.CreateBook", SFields [("name", FRequired); ("name", FNotUuid4)])]; Rejected [("pkg.Lib.CreateBook", SMethodNotFound)]] /\
-  generation_accepts layout_mixed [mkSetting "pkg.admin.Admin.CreateThing" ["opt_id"]] = true.
-Proof. repeat split. Qed.
+    = [Rejected [("pkg.Lib.CreateBook", SFields [("name", FRequired); ("name", FNotUuid4)])];
+       Rejected [("pkg.Lib.CreateBook", SFields [("name", FRequired); ("name", FNotUuid4)])]].
+Proof.
+  split; [exact layout_mixed_wf|]. split; [|repeat split].
+  apply (validation_iff_spec _ _ layout_mixed_wf). reflexivity.
+Qed.
